@@ -334,6 +334,23 @@ static void seqCase(Lock &L, Prng &r) {
     if (cur < base || cur >= base + 8192) {
       if (r.below(4) != 0) break;       // mostly stay inside the generated window
     }
+    if (cur >= base && cur < base + 8188 && !gen[cur - base] && (cur & 3) == 0 && L.ref.oreg == 0 && r.below(25) == 0) {
+      // self-modifying code: STAI k as the first instruction of a word overwrites that very word
+      unsigned k = (unsigned)r.below(8);
+      uint8_t self = (uint8_t)(0x80 | k);
+      uint32_t neww = self;
+      for (int l = 1; l < 4; l++) {
+        unsigned o2 = W[r.below(sizeof(W) / sizeof(W[0]))];
+        if (o2 == refisa::OPR || o2 == refisa::STAM || o2 == refisa::STAI || o2 == refisa::LDAI || o2 == refisa::LDBI ||
+            o2 == refisa::LDAM || o2 == refisa::LDBM) o2 = refisa::LDAC;
+        neww |= (uint32_t)((o2 << 4) | r.below(16)) << (8 * l);
+      }
+      L.poke(cur >> 2, (uint32_t)self | (r.u32() & 0xFFFFFF00u));
+      L.setRegs(cur, neww, (cur >> 2) - k, 0);
+      for (int l = 0; l < 4; l++) gen[cur - base + l] = true;
+      if (!L.step()) break;
+      continue;
+    }
     if (cur >= base && cur < base + 8192 && cur < MEM_WORDS * 4 && !gen[cur - base]) {
       // choose a byte that is defined and in range from the current state
       bool found = false;
